@@ -62,7 +62,8 @@ def lshow(b):
 
 # ------------------------------------------------------------------ build / run
 def build(ctx, sub):
-    exe, err = vlib.build_c("drv_net_asan", "drv_net.c", SRC, extra_sources=["wrap_net.c"], wraps=WRAPS, asan=True)
+    # one build directory per property: C06 / C07 / C14 may be checked concurrently
+    exe, err = vlib.build_c("drv_net_asan_" + ctx.pid, "drv_net.c", SRC, extra_sources=["wrap_net.c"], wraps=WRAPS, asan=True)
     if not exe:
         ctx.fail(sub, "build", "", "C driver does not build: " + (err or "")[-1500:])
         return None, None
@@ -697,8 +698,6 @@ def check_conn(case, toks, extra, allocfail=False):
     socks = {}          # ordinal -> {"addr":, "closed": n}
     next_addr = 0       # attempts must visit addresses 0, 1, 2, ... in order
     cbs = []
-    cancelled = "x" in cops
-    cur = None
     for t in toks[:-1] + extra:
         m = re.match(r"^sockfail:a(\d+)$", t)
         if m:
@@ -718,7 +717,6 @@ def check_conn(case, toks, extra, allocfail=False):
                 V("%s: connection attempt after the callback" % t)
             next_addr = a + 1
             socks[s] = {"addr": a, "closed": 0, "gso": None}
-            cur = s
             continue
         m = re.match(r"^fcntlfail(\d+)$", t)
         if m:
@@ -756,8 +754,6 @@ def check_conn(case, toks, extra, allocfail=False):
             if len(cbs) > 1:
                 V("%s: second callback" % t)
                 continue
-            if cancelled and "x" in cops and False:
-                pass
             if v >= 0:
                 if v not in socks or socks[v]["closed"]:
                     V("%s: callback with a descriptor that is not open" % t)
